@@ -41,6 +41,8 @@ type ccEpisode struct {
 	Reqs  []ccReq  `json:"reqs"`
 	Sched []ccStep `json:"sched"`
 	Adv   bool     `json:"adv,omitempty"`   // the schedule comes from the model without the referrer mutex: the real requests will wait where it interleaves critical sections
+	Burst int      `json:"burst,omitempty"` // replay: run only ungated bursts, this many
+	Cold  bool     `json:"cold,omitempty"`  // replay: restart the server between setup and burst
 	Order []int    `json:"order,omitempty"` // replay: the order of requests (0 based) a recorded run let one store call through
 }
 
@@ -195,6 +197,7 @@ func cmdConc(args []string) {
 	seed := fs.Int64("seed", 1, "seed")
 	stores := fs.String("stores", "mem,dir", "store kinds")
 	free := fs.Int("free", 0, "additionally run every episode this many times with a seeded random schedule instead of the model's")
+	burst := fs.Int("burst", 0, "additionally run every episode this many times without gates: all requests start at once and run in parallel (races inside store calls); on a directory store two of three bursts start on a restarted server (cold repository cache)")
 	_ = fs.Parse(args)
 	in, err := os.Open(*epf)
 	if err != nil {
@@ -232,8 +235,14 @@ func cmdConc(args []string) {
 			ep.Sched = []ccStep{}
 		}
 		for _, store := range splitList(*stores) {
-			for variant := 0; variant <= *free; variant++ {
+			first, last := 0, *free+*burst
+			if ep.Burst > 0 {
+				first, last = *free+1, *free+ep.Burst
+			}
+			for variant := first; variant <= last; variant++ {
 				nruns++
+				isBurst := variant > *free
+				cold := isBurst && store == "dir" && ((ep.Burst > 0 && ep.Cold) || (ep.Burst == 0 && (variant-*free)%3 != 0))
 				id := fmt.Sprintf("e%d-%s-%d", neps, store, variant)
 				root := ""
 				if store != "mem" {
@@ -263,11 +272,22 @@ func cmdConc(args []string) {
 					// no referrers queries between setup and episode: the server's page cache stays cold, as in the model
 					_ = enc.Encode(map[string]any{"k": "op", "i": ev, "op": op, "resp": r, "obs": map[string]RepoObs{"r1": ex.Observe("r1", ObsOpts{})}, "rootsum": "", "outsum": ""})
 				}
+				if cold {
+					op := Op{Op: "Restart"}
+					r := ex.Do(op)
+					ev++
+					_ = enc.Encode(map[string]any{"k": "op", "i": ev, "op": op, "resp": r, "obs": map[string]RepoObs{"r1": ex.Observe("r1", ObsOpts{})}, "rootsum": "", "outsum": ""})
+					// the observation loaded the repository: restart once more so that the burst meets a cold cache, unobserved
+					_ = srv.Restart()
+					srv.S.VerifTapStore(sched.tap)
+				}
 				actors := []*ccActor{}
 				for i, rq := range ep.Reqs {
 					a := &ccActor{name: fmt.Sprintf("p%d", i+1), op: ccOp(rq), calls: []string{}, arrive: make(chan string), release: make(chan struct{}), done: make(chan Resp, 1)}
 					actors = append(actors, a)
-					sched.actors[a.name] = a
+					if !isBurst {
+						sched.actors[a.name] = a
+					}
 				}
 				run := func(a *ccActor) { a.done <- ex.doAs(a.name, a.op) }
 				order := []int{}
@@ -290,15 +310,36 @@ func cmdConc(args []string) {
 					wait, limbo = 2*time.Millisecond, 4*time.Millisecond // a random schedule may well pick a request that waits for a mutex
 				}
 				played := []int{}
-				for _, ai := range order {
-					if sched.advance(actors[ai], run, wait, limbo) {
-						played = append(played, ai)
+				isHung := false
+				if isBurst {
+					// no gates: everything at once
+					start := make(chan struct{})
+					for _, a := range actors {
+						a.started, a.inv = true, 1
+						go func(a *ccActor) { <-start; run(a) }(a)
+					}
+					sched.clock = 1
+					close(start)
+					for _, a := range actors {
+						select {
+						case a.resp = <-a.done:
+							a.finished = true
+						case <-time.After(20 * time.Second):
+							isHung = true
+						}
+						a.ret = 2
+					}
+					sched.clock = 2
+				} else {
+					for _, ai := range order {
+						if sched.advance(actors[ai], run, wait, limbo) {
+							played = append(played, ai)
+						}
 					}
 				}
 				// whatever is left (the code makes more calls than the model, or the random schedule was too short)
 				idle := time.Now()
-				isHung := false
-				for {
+				for !isBurst {
 					all, progress := true, false
 					for ai, a := range actors {
 						if !a.finished {
@@ -354,7 +395,7 @@ func cmdConc(args []string) {
 						TagList: []string{}, Refs: []ObsRef{}, Sess: []ObsSess{}, Errs: []string{"hung"}}
 				}
 				_ = enc.Encode(map[string]any{"k": "conc", "id": id, "i": ev + 1, "episode": ep, "store": store, "variant": variant, "ops": ops,
-					"obs": map[string]RepoObs{"r1": obs}, "drift": isDrift, "hung": isHung, "played": played})
+					"obs": map[string]RepoObs{"r1": obs}, "drift": isDrift, "hung": isHung, "played": played, "burst": isBurst, "cold": cold})
 				if !isHung {
 					closeGuarded(srv)
 				}
